@@ -11,7 +11,7 @@ use self::sound::{AnsiMusic, MusicState};
 use super::BufferParser;
 use crate::{
     update_crc16, AttributedChar, AutoWrapMode, Buffer, CallbackAction, Caret, EngineResult, FontSelectionState, HyperLink, IceMode, MouseMode, OriginMode,
-    ParserError, Position, TerminalScrolling, BEL, BS, CR, FF, LF,
+    ParserError, Position, TerminalScrolling, TextPane, BEL, BS, CR, FF, LF,
 };
 
 mod ansi_commands;
@@ -1273,6 +1273,7 @@ impl BufferParser for Parser {
                         } else {
                             1
                         };
+                        let num = num.min(buf.layers[current_layer].get_height().saturating_add(1));
                         (0..num).for_each(|_| buf.scroll_up(current_layer));
                         return Ok(CallbackAction::Update);
                     }
@@ -1284,6 +1285,7 @@ impl BufferParser for Parser {
                         } else {
                             1
                         };
+                        let num = num.min(buf.layers[current_layer].get_height().saturating_add(1));
                         (0..num).for_each(|_| buf.scroll_down(current_layer));
                         return Ok(CallbackAction::Update);
                     }
